@@ -1,8 +1,8 @@
 #!/verif/.venv/bin/python
 # Replay of a solver counterexample against the unmodified code (no shims).
-# property=C18 kernel=switch label=nonstrict:within_limits_of_new_device
+# property=C18 kernel=switch label=strict:identical_timeline
 import sys
 sys.path[:0] = ['/repo' + "/pulser-core", '/repo' + "/pulser-simulation", "/verif"]
 from symx.replay import replay
-sys.exit(replay(check='checks.c18', kernel='switch', shape={'program': 'multi_init', 'sym': [['ryd_loc', 'max_targets']], 'strict': False},
-                assignment={'buf#1.start': 0, 'buf#1.end': 14, 'buf#2.start': 0, 'buf#2.end': 15, 'ryd_loc.max_targets': 1}, label='nonstrict:within_limits_of_new_device'))
+sys.exit(replay(check='checks.c18', kernel='switch', shape={'program': 'retarget', 'device': 'virt_nomod', 'sym': [], 'concrete': [['ryd_loc', 'mod_bandwidth', 10.0]], 'strict': True},
+                assignment={'buf#1.start': 0, 'buf#1.end': 20, 'buf#2.start': 0, 'buf#2.end': 21}, label='strict:identical_timeline'))
